@@ -181,6 +181,12 @@ def check_path(case, ctx):
                   'path/reversed/mirror', 'reversed()[%d]=%r is not the mirror of %r' % (i, a, b))
         for u in (0.25, 0.5):
             ctx.check(abs(complex(a.point(u)) - complex(b.point(1 - u))) <= ptol, 'path/reversed/points', 'reversed()[%d].point(%r) != original.point(1-u)' % (i, u))
+    # same points in opposite order, as a function of the path parameter too (the source path's caches are warm here)
+    if all(float(sg.length()) > 0 for sg in path):
+        for T in (0.1, 0.35, 0.5, 0.8):
+            a = complex(ctx.lib('reversed.point', r.point, T))
+            b = complex(path.point(1 - T))
+            ctx.check(abs(a - b) <= ptol + 1e-7 * Ltot, 'path/reversed/point_T', 'reversed().point(%r)=%r but point(1-T)=%r' % (T, a, b))
     lr = float(ctx.lib('reversed.length', r.length))
     ctx.check(abs(lr - Ltot) <= 1e-9 * Ltot + (2e-6 * Ltot if has_arc else 0), 'path/reversed/length', 'reversed().length()=%r, original %r' % (lr, Ltot))
     # cropped ---------------------------------------------------------------------------------------
